@@ -21,7 +21,7 @@ func intrinsicOf(t bcase, x txc) uint64 {
 	tx := makeTxUnsigned(t, x)
 	cfg := configs[t.fork]
 	rules := cfg.Rules(new(big.Int).Set(t.env[2]), true, t.env[1].Uint64())
-	g, err := core.IntrinsicGas(tx.Data(), tx.AccessList(), nil, addrOf(x.from), tx.To(), uint256.MustFromBig(x.value), rules)
+	g, err := core.IntrinsicGas(tx.Data(), tx.AccessList(), tx.SetCodeAuthorizations(), addrOf(x.from), tx.To(), uint256.MustFromBig(x.value), rules)
 	if err != nil {
 		return 21000
 	}
@@ -45,6 +45,10 @@ func makeTxUnsigned(t bcase, x txc) *types.Transaction {
 	}
 	if x.typ == 0 {
 		return types.NewTx(&types.LegacyTx{To: to, Data: x.data, Value: x.value})
+	}
+	if x.typ == 4 {
+		return types.NewTx(&types.SetCodeTx{To: *to, Data: x.data, Value: uint256.MustFromBig(x.value), AccessList: al,
+			AuthList: make([]types.SetCodeAuthorization, len(x.auths))})
 	}
 	return types.NewTx(&types.DynamicFeeTx{To: to, Data: x.data, Value: x.value, AccessList: al})
 }
@@ -98,6 +102,11 @@ func genCase(r *Rng) bcase {
 		w.addrs = append(w.addrs, keyAddr(k))
 	}
 	w.addrs = append(w.addrs, coinbase, big.NewInt(4), big.NewInt(0x2222), big.NewInt(0x3333))
+	// keys 4..6: accounts that only ever sign EIP-7702 authorisations
+	authKeys := append(append([]uint64{}, senders...), 4, 5, 6)
+	if t.fork >= 1 {
+		w.addrs = append(w.addrs, keyAddr(4), keyAddr(5))
+	}
 
 	// environment
 	gaslimit := uint64(30000000)
@@ -138,6 +147,8 @@ func genCase(r *Rng) bcase {
 		a := acct{addr: keyAddr(k), balance: bal, nonce: n}
 		if k == senders[len(senders)-1] && r.Chance(1, 20) {
 			a.code = []byte{0x00} // a sender with code (EIP-3607)
+		} else if t.fork >= 1 && k == senders[len(senders)-1] && r.Chance(1, 8) {
+			a.code = append([]byte{0xef, 0x01, 0x00}, addrOf(caddrs[r.Intn(ncon)]).Bytes()...) // an already delegated sender
 		}
 		nonces[k], balances[k] = n, bal
 		t.pre = append(t.pre, a)
@@ -176,6 +187,11 @@ func genCase(r *Rng) bcase {
 	if r.Chance(1, 5) && !inPre(coinbase) {
 		t.pre = append(t.pre, acct{addr: coinbase, balance: big.NewInt(7)})
 	}
+	if t.fork >= 1 && r.Chance(1, 4) {
+		target := w.addrs[r.Intn(len(w.addrs))]
+		t.pre = append(t.pre, acct{addr: keyAddr(5), balance: big.NewInt(int64(r.Intn(100))), nonce: uint64(r.Intn(2)),
+			code: append([]byte{0xef, 0x01, 0x00}, addrOf(target).Bytes()...)})
+	}
 	// system contracts
 	sys := func(addr common.Address, code []byte) {
 		t.pre = append(t.pre, acct{addr: addrBig(addr), balance: new(big.Int), nonce: 1, code: code})
@@ -199,7 +215,7 @@ func genCase(r *Rng) bcase {
 			a common.Address
 			c []byte
 		}{{params.WithdrawalQueueAddress, params.WithdrawalQueueCode}, {params.ConsolidationQueueAddress, params.ConsolidationQueueCode}} {
-			switch r.Intn(40) {
+			switch r.Intn(70) {
 			case 0:
 			case 1:
 				sys(sc.a, revertCode)
@@ -214,12 +230,22 @@ func genCase(r *Rng) bcase {
 		t.wds = append(t.wds, wdl{w.addrs[r.Intn(len(w.addrs))], uint64(r.Intn(6))})
 	}
 
+	for _, ak := range authKeys {
+		for _, a := range t.pre {
+			if a.addr.Cmp(keyAddr(ak)) == 0 {
+				nonces[ak] = a.nonce
+			}
+		}
+	}
 	// transactions
 	ntx := 1 + r.Intn(6)
 	for i := 0; i < ntx; i++ {
 		k := senders[r.Intn(len(senders))]
 		x := txc{key: k, from: keyAddr(k), nonce: nonces[k], value: new(big.Int), blobfeecap: new(big.Int)}
 		x.typ = []int{0, 0, 0, 1, 1, 2, 2, 2, 2, 3}[r.Intn(10)]
+		if (t.fork >= 1 && r.Chance(1, 5)) || (t.fork == 0 && r.Chance(1, 40)) {
+			x.typ = 4
+		}
 		// destination and data
 		switch d := r.Intn(20); {
 		case d < 11:
@@ -242,14 +268,54 @@ func genCase(r *Rng) bcase {
 				x.data = nil // fee query
 			}
 			x.value = big.NewInt(int64(r.Intn(4)))
-		case d < 19 && x.typ != 3: // creation
+		case d < 19 && x.typ < 3: // creation
 			g := &pgen{r: r, a: newAsm(), w: w}
 			x.data = g.initcode()
 		default:
 			x.to = keyAddr(senders[r.Intn(len(senders))])
 		}
-		if x.typ == 3 && x.to == nil {
+		if x.typ >= 3 && x.to == nil {
 			x.to = caddrs[0]
+		}
+		// authorisations
+		if x.typ == 4 {
+			for j := 1 + r.Intn(3); j > 0; j-- {
+				ak := authKeys[r.Intn(len(authKeys))]
+				au := authc{chain: big.NewInt(int64(r.Intn(2))), key: ak, authority: keyAddr(ak), nonce: nonces[ak]}
+				if ak == k {
+					au.nonce++ // the sender's nonce has been incremented before the list is processed
+				}
+				for _, prev := range x.auths {
+					if prev.key == ak {
+						au.nonce++ // an earlier tuple of the same authority (if it was valid)
+					}
+				}
+				switch r.Intn(8) {
+				case 0:
+					au.addr = new(big.Int) // clear
+				case 1:
+					au.addr = w.addrs[r.Intn(len(w.addrs))]
+				default:
+					au.addr = caddrs[r.Intn(ncon)]
+				}
+				switch r.Intn(12) {
+				case 0:
+					au.chain = big.NewInt(int64(2 + r.Intn(3)))
+				case 1:
+					au.nonce += uint64(1 + r.Intn(2))
+				case 2:
+					au.authority = nil
+				case 3:
+					au.nonce = ^uint64(0)
+				}
+				x.auths = append(x.auths, au)
+			}
+			if r.Chance(1, 25) {
+				x.auths = nil
+			}
+			if len(x.auths) > 0 && r.Bool() {
+				x.to = keyAddr(x.auths[r.Intn(len(x.auths))].key) // run the delegated code
+			}
 		}
 		// value
 		if x.value.Sign() == 0 {
@@ -409,16 +475,12 @@ func genCase(r *Rng) bcase {
 		}
 		_ = valid
 		t.txs = append(t.txs, x)
-		// the generator runs the implementation on the block so far: the next nonce of a sender is
-		// the one after its transactions that were really included
-		included := true
-		for _, rj := range runBlock(t, nil, false).rejected {
-			if int(rj[0]) == i {
-				included = false
+		// the generator runs the implementation on the block so far: the next nonce of every key is
+		// read from the resulting state
+		if o := runBlock(t, nil, false); o.st != nil {
+			for _, ak := range authKeys {
+				nonces[ak] = o.st.GetNonce(addrOf(keyAddr(ak)))
 			}
-		}
-		if included {
-			nonces[k]++
 		}
 	}
 	return t
@@ -426,7 +488,7 @@ func genCase(r *Rng) bcase {
 
 func gen(r *Rng, tier string, emit func(Sx)) {
 	r = NewRng(r.U64())
-	n := 260
+	n := 300
 	if tier == "thorough" {
 		n = 6000
 	}
